@@ -11,7 +11,8 @@ RULE = ("deterministic virtual-clock event loop; a real BaseClient (recording se
         "1..3 concurrent waitforevent calls are started at t=0; at every point of a half-integer grid one of {nothing, non-matching "
         "event, matching event, non-match then match in one receive batch, two matching events in one batch} is injected through "
         "process_message; timeout in {none, 2.25, 4.25, 7.25} (never tying with the grid), polling in {off, delay 1/interval 1, delay "
-        "2/interval 3}, condition kind {expect, initial, check} x event kind {value, state, any = no element filter and default event type, where the "
+        "2/interval 3}, condition kind {expect, initial, check} x event kind {value, state, value+state = a check that also reads the vector's state, where one "
+        "message changes both, any = no element filter and default event type, where the "
         "non-matching events are re-definitions raising value, state and definition events}. The complete grid is enumerated (quick: 6 "
         "points, thorough: 7 points). Oracle: the wait returns the FIRST matching event object (identity, from a "
         "spy tapping trigger_event; the callback registry holds only what the waits registered) at that event's virtual instant, or raises at exactly the timeout instant - never both, never neither; getProperties "
@@ -28,7 +29,9 @@ TIMEOUTS = [None, 2.25, 4.25, 7.25]
 POLLING = [None, (1.0, 1.0), (2.0, 3.0)]
 CONDS = [("expect", "value"), ("initial", "value"), ("check", "value"), ("expect", "state"), ("initial", "state"), ("check", "state"),
          # "any": no element filter and the default event type, so that value, state AND definition events reach the condition
-         ("expect", "any"), ("initial", "any"), ("check", "any")]
+         ("expect", "any"), ("initial", "any"), ("check", "any"),
+         # a custom check that reads the vector's state while a value event of the same message is dispatched
+         ("check", "value+state")]
 HORIZON = 9.25
 
 
@@ -63,6 +66,17 @@ class Feeder:
                 return None
             self.value = new
             return M.SetTextVector(device="D", name="P", state=self.state, children=(one_parts.OneText(name="E", value=new),))
+        if self.kind == "value+state":
+            # one message changes value AND state; the wait's check looks at both (the idiom `e.element.value == ON and
+            # e.vector.state == OK`): only a message carrying a GOOD value together with state Ok satisfies it
+            if match:
+                st, new = "Ok", f"GOOD{self.n}"
+            elif self.n % 2:
+                st, new = "Busy", f"GOOD{self.n}"
+            else:
+                st, new = "Ok", f"BAD{self.n}"
+            self.value, self.state = new, st
+            return M.SetTextVector(device="D", name="P", state=st, children=(one_parts.OneText(name="E", value=new),))
         if self.kind == "value":
             if self.cond == "expect":
                 new = "GO" if match else f"X{self.n}"
@@ -99,6 +113,10 @@ def wait_kwargs(cond, kind, timeout, polling):
             kw["initial"] = "Ok"
         else:
             kw["check"] = lambda ev: str(getattr(ev, "new_value", "")).startswith("GOOD")
+    elif kind == "value+state":
+        kw["element"] = "E"
+        kw["event_type"] = E.ValueUpdate
+        kw["check"] = lambda ev: str(getattr(ev, "new_value", "")).startswith("GOOD") and ev.vector.state == "Ok"
     elif kind == "value":
         kw["element"] = "E"
         kw["event_type"] = E.ValueUpdate
@@ -134,6 +152,9 @@ def is_match(cond, kind, ev):
             s_ = ev.new_state
             return (cond == "expect" and s_ == "GO") or (cond == "initial" and s_ != "Ok")
         return False        # a definition event carries no value: it can never satisfy a condition
+    if kind == "value+state":
+        # judged by what the MESSAGE carried (recorded by the harness when it injected it), not by the mirror at dispatch time
+        return name == "ValueUpdate" and str(ev.new_value).startswith("GOOD") and getattr(ev, "_vf_message_state", None) == "Ok"
     if kind == "value":
         if name != "ValueUpdate":
             return False
@@ -169,7 +190,13 @@ def run_one(ctx, case):
     # nothing but what the waits under test put there
     real_trigger = client.trigger_event
 
+    current_message_state = [None]
+
     def tapped_trigger(ev):
+        try:
+            ev._vf_message_state = current_message_state[0]
+        except AttributeError:
+            pass
         spy.append((loop.time(), ev))
         return real_trigger(ev)
     client.trigger_event = tapped_trigger
@@ -215,6 +242,8 @@ def run_one(ctx, case):
                     injected[0] += 1
                     if type(msg).__name__.startswith("Def"):
                         redefs[0] += 1
+                    if getattr(msg, "state", None) is not None:
+                        current_message_state[0] = msg.state
                     client.process_message(msg)
 
         for gi, slot in enumerate(pattern):
